@@ -137,3 +137,43 @@ func vh_control_heartbeat_frames() {
 	vAssert(vHBCalls <= vHBSteps, "C05/control-heartbeat/loop-ends-on-quit")
 	vObserve("calls", vHBCalls)
 }
+
+// ---- pushed EVENT frames: from the receive loop's hand-over to the debouncers ----
+//
+// Conn.recv hands every frame on stream -1 to Session.handleEvent in a goroutine of its own. The body is
+// a well-formed EVENT beginning followed by an arbitrary tail (or arbitrary from the first byte): the
+// handler must not panic, must queue topology / status changes for the node handler and schema changes
+// for the schema handler, and nothing else.
+func vh_handle_event() {
+	var body []byte
+	if vBound("prefix") >= 0 {
+		pre, ok := vFramePrefix(opEvent, vBound("prefix"))
+		vAssume(ok)
+		body = append(append([]byte(nil), pre...), vBytes("tail", vBound("L"))...)
+	} else {
+		body = vBytes("tail", vBound("L"))
+	}
+	c := &Conn{version: byte(vBound("version"))}
+	f := vFramerWith(c, opEvent, body)
+	s := &Session{logger: vNopLogger{}}
+	s.nodeEvents = newEventDebouncer("node", func([]frame) {}, vNopLogger{})
+	s.schemaEvents = newEventDebouncer("schema", func([]frame) {}, vNopLogger{})
+	s.handleEvent(f)
+	vAssert(len(s.nodeEvents.events)+len(s.schemaEvents.events) <= 1, "C05/event/at-most-one-event-per-frame")
+	for _, e := range s.nodeEvents.events {
+		_, topo := e.(*topologyChangeEventFrame)
+		_, stat := e.(*statusChangeEventFrame)
+		vAssert(topo || stat, "C05/event/only-node-events-reach-the-node-handler")
+	}
+	for _, e := range s.schemaEvents.events {
+		switch e.(type) {
+		case *schemaChangeKeyspace, *schemaChangeTable, *schemaChangeType, *schemaChangeFunction, *schemaChangeAggregate:
+		default:
+			vAssert(false, "C05/event/only-schema-events-reach-the-schema-handler")
+		}
+	}
+	if len(s.nodeEvents.events)+len(s.schemaEvents.events) == 1 {
+		vReach("C05/event/queued")
+	}
+	vObserve("queued", len(s.nodeEvents.events)+len(s.schemaEvents.events))
+}
